@@ -487,7 +487,21 @@ def reader_cases(rng, n, faults=True):
 # ==========================================================================================
 class C08(Prop):
     pid = "C08"
-    theorems = [("C08_noise", None)]
+    theorems = [("C08_noise",
+                 "forall (cap : cap_t) (d : dec) (g m : list N), norm d = norm init -> only_at_end g -> cap_ok cap (length m) -> "
+                 "snd (run cap d (g ++ frame m)) = quiet g ++ quiet (firstn 7 start_seq) ++ "
+                 "[(if 0 <? lenN g then OErr (DiscardedBytes (lenN g)) else ONone, [])] ++ "
+                 "skipn 8 (quiet (removelast (frame m)) ++ [(OMsg, m)])"),
+                ("C08_cutoff",
+                 "forall (cap : cap_t) (d : dec) (q m : list N), norm d = norm init -> cnt_from 0 q = 0 -> "
+                 "cap_ok cap (length q) -> cap_ok cap (length m) -> let x := start_seq ++ enc_from 0 q in "
+                 "snd (run cap d (x ++ frame m)) = quiet x ++ quiet (firstn 7 start_seq) ++ [(OErr (DiscardedBytes (lenN x)), [])] ++ "
+                 "skipn 8 (quiet (removelast (frame m)) ++ [(OMsg, m)])"),
+                ("C08_side_condition", "forall g : list N, only_at_end_b g = true -> only_at_end g")]
+    level_text = ("Theorems C08_noise, C08_cutoff (Coq, closed): from every idle state (norm = new; C14) noise without a start sequence - "
+                  "also ending in 0x1b bytes or a partial start sequence - followed by frame m gives silence, DiscardedBytes(|g|) exactly "
+                  "at the 8th start byte, silence, and m at the last byte; likewise for a cut-off frame. The start-sequence matcher is "
+                  "shown complete via its transition function on all 8 states. Oracle: real decoder on noise incl. start-sequence fragments.")
     suite_names = "S-DEC (dec)"
     rule = ("idle decoder histories (new / after a delivered frame / after junk+reset / junk+finalize / from_buf) x noise g with the "
             "start sequence occurring in g++start only at |g| (random, 5-symbol alphabet, ending in 1-7 0x1b, in a partial start "
@@ -1864,10 +1878,10 @@ class C11(Prop):
         return bad
 
 
-REGISTRY = {"C01": C01, "C02": C02, "C05": C05, "C07": C07, "C14": C14, "C15": C15, "C16": C16, "C17": C17, "C18": C18}
+REGISTRY = {"C01": C01, "C02": C02, "C05": C05, "C07": C07, "C08": C08, "C14": C14, "C15": C15, "C16": C16, "C17": C17, "C18": C18}
 
 NOT_CLAIMED = {}
-for _p in ["C03", "C04", "C06", "C08", "C09", "C10", "C11", "C12", "C13"]:
+for _p in ["C03", "C04", "C06", "C09", "C10", "C11", "C12", "C13"]:
     NOT_CLAIMED[_p] = "check under construction in this revision (model/theorem not yet committed); the technique applies, see DESIGN.md section 5"
 
 
